@@ -51,7 +51,7 @@ def coupling(kind):
         return 0.5 * np.array([[0, 1, 0], [1, 0, 0], [0, 0, 1]], dtype=complex)
     if kind == "d3generic":
         v = M.generic_unitary(3, 2)
-        o = (v * np.array([0.5, 0.5, -0.5])) @ v.conj().T
+        o = (v * np.array([0.8, 0.8, -0.8])) @ v.conj().T
         return (o + o.conj().T) / 2
     raise ValueError(kind)
 
